@@ -8,7 +8,7 @@ from .. import gen, impl, oracle, ser, stream
 
 ID = "C10"
 LEVEL = "proof"
-PROPS_MODULE = "SymmModel.Props.C10All7"
+PROPS_MODULE = "SymmModel.Props.C10All8"
 THEOREMS = [
     "SymmModel.C10.oddposDag_involutive",
     "SymmModel.C10.Index.conj_conj",
@@ -117,10 +117,20 @@ THEOREMS = [
     "SymmModel.C10.network_norm_chain_bracketings",
     "SymmModel.C10.evalLM_blockwise",
     "SymmModel.C10.chain_conj_any_mode",
-    "SymmModel.C10.network_norm_chain_any_mode"
+    "SymmModel.C10.network_norm_chain_any_mode",
+    "SymmModel.C10.scalar_congr",
+    "SymmModel.C10.scalar_pre",
+    "SymmModel.C10.merge_nested",
+    "SymmModel.C10.labelRoutes_ketbra_piece",
+    "SymmModel.C10.ketBraLabelsB_oneKet",
+    "SymmModel.C10.ketBraLabels_order",
+    "SymmModel.C10.network_norm_ketbra_first",
+    "SymmModel.C10.network_norm_ketbra_first_oneKet",
+    "SymmModel.C10.network_norm_ketbra_first_lt",
+    "SymmModel.C10.ketbra_vals_order"
 ]
-LEAN_FILES = ["SymmModel.Props.C10", "SymmModel.Proofs.LazyLemmas", "SymmModel.Props.C10b", "SymmModel.Proofs.NormLemmas", "SymmModel.Props.C10c", "SymmModel.Props.C10All2", "SymmModel.Proofs.NormNet1", "SymmModel.Proofs.NormNet2", "SymmModel.Proofs.NormNet3", "SymmModel.Proofs.NormNet4", "SymmModel.Proofs.NormNet5", "SymmModel.Proofs.NormNet6", "SymmModel.Proofs.NormNetLabels", "SymmModel.Props.C10d", "SymmModel.Props.C10All3", "SymmModel.Proofs.NormNet7", "SymmModel.Proofs.NormNet8", "SymmModel.Proofs.NormNet9", "SymmModel.Proofs.NormNet10", "SymmModel.Proofs.NormNet11", "SymmModel.Proofs.NormNet12", "SymmModel.Props.C10e", "SymmModel.Props.C10All4", "SymmModel.Proofs.NormNet13", "SymmModel.Proofs.NormNet14", "SymmModel.Proofs.NormNet15", "SymmModel.Proofs.NormNet16", "SymmModel.Props.C10f", "SymmModel.Props.C10All5", "SymmModel.Proofs.NormNet17", "SymmModel.Proofs.NormNet18", "SymmModel.Proofs.NormNet19", "SymmModel.Proofs.NormNet20", "SymmModel.Props.C10g", "SymmModel.Props.C10All6", "SymmModel.Proofs.NormNet21", "SymmModel.Proofs.NormNet22", "SymmModel.Proofs.NormNet23", "SymmModel.Proofs.NormNet24", "SymmModel.Props.C10h", "SymmModel.Proofs.NetNorm1", "SymmModel.Proofs.NetNorm2", "SymmModel.Proofs.NetNorm3", "SymmModel.Proofs.NetNorm4", "SymmModel.Proofs.NetNorm5", "SymmModel.Proofs.NetNorm6", "SymmModel.Proofs.NetNorm7", "SymmModel.Proofs.NetNorm8", "SymmModel.Proofs.NetNorm9", "SymmModel.Proofs.NetNorm10", "SymmModel.Proofs.NetNorm11", "SymmModel.Proofs.NetNorm12"]
-PLANNED = ["bracketings that first contract a ket with a bra tensor ((a-bar.a).(b-bar.b), ((a-bar.a).b-bar).b)", "nested routes that absorb the bra tensors of a chain one at a time", "operand-swapped halves for chains", "fused/auto mode for chain bracketings other than left-nested", "netLabelsB as a theorem for more than two labels per tensor (<= 2 proved symbolically in C04g)"]
+LEAN_FILES = ["SymmModel.Props.C10", "SymmModel.Proofs.LazyLemmas", "SymmModel.Props.C10b", "SymmModel.Proofs.NormLemmas", "SymmModel.Props.C10c", "SymmModel.Props.C10All2", "SymmModel.Proofs.NormNet1", "SymmModel.Proofs.NormNet2", "SymmModel.Proofs.NormNet3", "SymmModel.Proofs.NormNet4", "SymmModel.Proofs.NormNet5", "SymmModel.Proofs.NormNet6", "SymmModel.Proofs.NormNetLabels", "SymmModel.Props.C10d", "SymmModel.Props.C10All3", "SymmModel.Proofs.NormNet7", "SymmModel.Proofs.NormNet8", "SymmModel.Proofs.NormNet9", "SymmModel.Proofs.NormNet10", "SymmModel.Proofs.NormNet11", "SymmModel.Proofs.NormNet12", "SymmModel.Props.C10e", "SymmModel.Props.C10All4", "SymmModel.Proofs.NormNet13", "SymmModel.Proofs.NormNet14", "SymmModel.Proofs.NormNet15", "SymmModel.Proofs.NormNet16", "SymmModel.Props.C10f", "SymmModel.Props.C10All5", "SymmModel.Proofs.NormNet17", "SymmModel.Proofs.NormNet18", "SymmModel.Proofs.NormNet19", "SymmModel.Proofs.NormNet20", "SymmModel.Props.C10g", "SymmModel.Props.C10All6", "SymmModel.Proofs.NormNet21", "SymmModel.Proofs.NormNet22", "SymmModel.Proofs.NormNet23", "SymmModel.Proofs.NormNet24", "SymmModel.Props.C10h", "SymmModel.Proofs.NetNorm1", "SymmModel.Proofs.NetNorm2", "SymmModel.Proofs.NetNorm3", "SymmModel.Proofs.NetNorm4", "SymmModel.Proofs.NetNorm5", "SymmModel.Proofs.NetNorm6", "SymmModel.Proofs.NetNorm7", "SymmModel.Proofs.NetNorm8", "SymmModel.Proofs.NetNorm9", "SymmModel.Proofs.NetNorm10", "SymmModel.Proofs.NetNorm11", "SymmModel.Proofs.NetNorm12", "SymmModel.Props.C10i", "SymmModel.Proofs.NetNormK1", "SymmModel.Proofs.NetNormK2", "SymmModel.Proofs.NetNormK3"]
+PLANNED = ["the pairing (a-bar.a).(b-bar.b) as a theorem (its value is checked by evaluation in ketbra_vals_order", "the ket-bra-first routes ((a-bar.a).b-bar).b and (b-bar.(a-bar.a)).b are proved under the decidable label check ketBraLabelsB)", "the label order label a > label b for routes through (b-bar.a-bar).a", "fused/auto mode for the ket-bra-first routes", "nested routes that absorb the bra tensors of a chain one at a time", "netLabelsB / ketBraLabelsB as theorems for more than two labels per tensor"]
 RULE = ("random fermionic arrays (all symmetries, every dualness pattern, even/odd charge with labels, pending signs, "
         "real/complex): <x|x> through conj (all-ket or phase_dual) in both operand orders equals the exact integer "
         "sum |x|^2; conj/dagger involutions; dagger == transpose(conj) for both settings of phase_dual; 2-3 tensor "
